@@ -171,7 +171,7 @@ Qed.
 Theorem plain_forward_rank : forall g c, wf_plain g -> valid g c ->
   match move_selector (at_cell g c) 1 0 with
   | Ok (g', false, _) => g' = at_cell g (pos_of g') /\ valid g (pos_of g') /\ rank_plain g (pos_of g') = rank_plain g c + 1
-  | Ok (_, true, next) => next = true /\ rank_plain g c = total g - 1
+  | Ok (g', true, next) => (exists a b, g' = set_pos g a b) /\ next = true /\ rank_plain g c = total g - 1
   | _ => False
   end.
 Proof.
@@ -183,7 +183,7 @@ Proof.
     + unfold pos_of, at_cell, rank_plain. cbn [g_px g_py set_pos fst snd]. split; [reflexivity|]. split.
       * split; [lia|]. pose proof (rowlen_pos g (y + 1) R ltac:(lia)). lia.
       * rewrite prefix_succ by lia. lia.
-    + split; [reflexivity|]. unfold rank_plain. cbn [fst snd]. rewrite <- prefix_total.
+    + split; [eexists; eexists; reflexivity|]. split; [reflexivity|]. unfold rank_plain. cbn [fst snd]. rewrite <- prefix_total.
       replace (nrows g) with (y + 1) by lia. rewrite prefix_succ by lia. lia.
 Qed.
 
@@ -191,7 +191,7 @@ Qed.
 Theorem plain_backward_rank : forall g c, wf_plain g -> valid g c ->
   match move_selector (at_cell g c) (-1) 0 with
   | Ok (g', false, _) => g' = at_cell g (pos_of g') /\ valid g (pos_of g') /\ rank_plain g (pos_of g') = rank_plain g c - 1
-  | Ok (_, true, next) => next = false /\ rank_plain g c = 0
+  | Ok (g', true, next) => (exists a b, g' = set_pos g a b) /\ next = false /\ rank_plain g c = 0
   | _ => False
   end.
 Proof.
@@ -200,7 +200,7 @@ Proof.
   destruct (0 <? x) eqn:E1.
   - unfold pos_of, at_cell, rank_plain. cbn. repeat split; lia.
   - destruct (y =? 0) eqn:E2.
-    + split; [reflexivity|]. unfold rank_plain. cbn [fst snd]. replace y with 0 by lia. rewrite prefix_0. lia.
+    + split; [eexists; eexists; reflexivity|]. split; [reflexivity|]. unfold rank_plain. cbn [fst snd]. replace y with 0 by lia. rewrite prefix_0. lia.
     + unfold pos_of, at_cell, rank_plain. cbn [g_px g_py set_pos fst snd]. split; [reflexivity|].
       pose proof (rowlen_pos g (y - 1) R ltac:(lia)). split; [split; lia|].
       replace (prefix g y) with (prefix g ((y - 1) + 1)) by (f_equal; lia). rewrite prefix_succ by lia. lia.
@@ -330,7 +330,7 @@ Definition valid_al (g : grp) (c : Z * Z) : Prop := valid g c /\ snd c < g_maxx 
 Theorem aliased_forward_rank : forall g c, wf_aliased g -> valid_al g c ->
   match move_selector (at_cell g c) 0 1 with
   | Ok (g', false, _) => g' = at_cell g (pos_of g') /\ valid_al g (pos_of g') /\ rank_al g (pos_of g') = rank_al g c + 1
-  | Ok (_, true, next) => next = true /\ rank_al g c + 1 = total_al g
+  | Ok (g', true, next) => (exists a b, g' = set_pos g a b) /\ next = true /\ rank_al g c + 1 = total_al g
   | _ => False
   end.
 Proof.
@@ -355,11 +355,11 @@ Proof.
         rewrite find_first_set_pos.
         destruct (find_first (ff_fuel g) g 0 1 (x + 1) 0) as [[[[px' py'] done] next]| |]; try contradiction. cbn [bind].
         destruct done.
-        -- destruct F as [F1 F2]. split; [exact F1 | lia].
+        -- destruct F as [F1 F2]. split; [eexists; eexists; reflexivity|]. split; [exact F1 | lia].
         -- destruct F as (F1 & F2 & F3 & F4). unfold pos_of, at_cell, valid_al, valid. cbn [g_px g_py set_pos fst snd].
            repeat split; try lia; unfold rank_al in *; cbn [fst snd] in *; lia.
       * unfold pos_of, at_cell, valid_al, valid. cbn [g_px g_py set_pos fst snd]. repeat split; try lia; unfold rank_al in *; cbn [fst snd] in *; lia.
-    + split; [reflexivity|]. rewrite RK, Yl. rewrite vrank_wrap by lia. unfold total_al, vrank. rewrite cbelow_0.
+    + split; [eexists; eexists; reflexivity|]. split; [reflexivity|]. rewrite RK, Yl. rewrite vrank_wrap by lia. unfold total_al, vrank. rewrite cbelow_0.
       replace (g_maxx g) with (x + 1) by lia. lia.
   - pose proof (find_first_forward (ff_fuel g) g x (y + 1) W ltac:(lia) ltac:(lia) (ff_fuel_enough g x (y + 1) W ltac:(lia) ltac:(lia))) as F.
     rewrite (idx_rows 403 g (y + 1) ltac:(lia)). cbn [bind]. rewrite A.
@@ -368,7 +368,7 @@ Proof.
       rewrite find_first_set_pos.
       destruct (find_first (ff_fuel g) g 0 1 x (y + 1)) as [[[[px' py'] done] next]| |]; try contradiction. cbn [bind].
       destruct done.
-      * destruct F as [F1 F2]. split; [exact F1 | lia].
+      * destruct F as [F1 F2]. split; [eexists; eexists; reflexivity|]. split; [exact F1 | lia].
       * destruct F as (F1 & F2 & F3 & F4). unfold pos_of, at_cell, valid_al, valid. cbn [g_px g_py set_pos fst snd].
         repeat split; try lia; unfold rank_al in *; cbn [fst snd] in *; lia.
     + unfold pos_of, at_cell, valid_al, valid. cbn [g_px g_py set_pos fst snd]. repeat split; try lia; unfold rank_al in *; cbn [fst snd] in *; lia.
@@ -427,7 +427,7 @@ Qed.
 Theorem aliased_backward_rank : forall g c, wf_aliased g -> valid_al g c ->
   match move_selector (at_cell g c) 0 (-1) with
   | Ok (g', false, _) => g' = at_cell g (pos_of g') /\ valid_al g (pos_of g') /\ rank_al g (pos_of g') = rank_al g c - 1
-  | Ok (_, true, next) => next = false /\ rank_al g c = 0
+  | Ok (g', true, next) => (exists a b, g' = set_pos g a b) /\ next = false /\ rank_al g c = 0
   | _ => False
   end.
 Proof.
@@ -440,7 +440,7 @@ Proof.
   destruct (y - 1 <? 0) eqn:E2.
   - assert (y = 0) by lia. subst y.
     destruct (x =? 0) eqn:E3.
-    + split; [reflexivity|]. assert (x = 0) by lia. subst x. reflexivity.
+    + split; [eexists; eexists; reflexivity|]. split; [reflexivity|]. assert (x = 0) by lia. subst x. reflexivity.
     + replace (nrows g - 1 <? nrows g - 1) with false by lia.
       pose proof (find_first_backward (ff_fuel g) g (x - 1) (nrows g - 1) W ltac:(lia) ltac:(lia)
                     (ff_fuel_enough_back g (x - 1) (nrows g - 1) W ltac:(lia) ltac:(lia))) as F.
@@ -451,7 +451,7 @@ Proof.
       * change (ff_fuel (set_pos g x 0)) with (ff_fuel g). rewrite find_first_set_pos.
         destruct (find_first (ff_fuel g) g 0 (-1) (x - 1) (nrows g - 1)) as [[[[px' py'] done] next]| |]; try contradiction. cbn [bind].
         destruct done.
-        -- destruct F as [F1 F2]. split; [exact F1|]. pose proof (ccount_ge0 (x - 1) (firstn (Z.to_nat (nrows g)) (g_rows g))).
+        -- destruct F as [F1 F2]. split; [eexists; eexists; reflexivity|]. split; [exact F1|]. pose proof (ccount_ge0 (x - 1) (firstn (Z.to_nat (nrows g)) (g_rows g))).
            unfold rank_al in *. cbn [fst snd] in *. lia.
         -- destruct F as (F1 & F2 & F3 & F4). unfold pos_of, at_cell. cbn [g_px g_py set_pos].
            assert (VA : valid_al g (py', px')) by (unfold valid_al, valid; cbn [fst snd]; repeat split; lia).
@@ -467,7 +467,7 @@ Proof.
     + change (ff_fuel (set_pos g x y)) with (ff_fuel g). rewrite find_first_set_pos.
       destruct (find_first (ff_fuel g) g 0 (-1) x (y - 1)) as [[[[px' py'] done] next]| |]; try contradiction. cbn [bind].
       destruct done.
-      * destruct F as [F1 F2]. split; [exact F1|]. unfold rank_al. cbn [fst snd]. exact F2.
+      * destruct F as [F1 F2]. split; [eexists; eexists; reflexivity|]. split; [exact F1|]. unfold rank_al. cbn [fst snd]. exact F2.
       * destruct F as (F1 & F2 & F3 & F4). unfold pos_of, at_cell. cbn [g_px g_py set_pos].
         assert (VA : valid_al g (py', px')) by (unfold valid_al, valid; cbn [fst snd]; repeat split; lia).
         split; [reflexivity|]. split; [exact VA|]. pose proof (rank_al_succ g py' px' VA). unfold rank_al in *. cbn [fst snd] in *. lia.
